@@ -6,6 +6,7 @@ import (
 	"math/rand/v2"
 	"os"
 	"path/filepath"
+	"verifharness/yqx"
 
 	"verifharness/gen"
 	"verifharness/mon"
@@ -169,6 +170,12 @@ func (p c04) Run(w *mon.Worker, idx int) mon.Result {
 		a = ref.NullV()
 	case 2:
 		b = &ref.V{K: ref.Map, M: []ref.KV{}}
+	}
+	if idx%100 == 41 {
+		return c04DeepCase(w, r)
+	}
+	if idx%25 == 12 {
+		return c04AliasCase(w, r)
 	}
 	fl := ref.MergeFlags{Append: r.IntN(3) == 0, Deep: r.IntN(3) == 0, Existing: r.IntN(4) == 0, NewOnly: r.IntN(4) == 0}
 	fam := []string{"merge", "merge", "merge", "laws", "immut", "fold"}[idx%6]
@@ -365,5 +372,73 @@ func (p c04) Run(w *mon.Worker, idx int) mon.Result {
 		return res
 	}
 	res.Verdict = mon.Held
+	return res
+}
+
+// c04DeepCase: documents nested a hundred and more levels deep merge like any other: `{} * b == b`, `a * b` holds what b
+// holds at the bottom, `a * a == a`.
+func c04DeepCase(w *mon.Worker, r *rand.Rand) mon.Result {
+	depth := 98 + r.IntN(12)
+	chain := func(leafKey string, leaf *ref.V) *ref.V {
+		v := ref.MapV(ref.KV{K: leafKey, V: leaf})
+		for i := 0; i < depth; i++ {
+			v = ref.MapV(ref.KV{K: "n", V: v})
+		}
+		return v
+	}
+	a, b := chain("x", ref.IntV(1)), chain("y", ref.SeqV(ref.IntV(2), ref.StrV("deep")))
+	doc := ref.MapV(ref.KV{K: "a", V: a}, ref.KV{K: "b", V: b})
+	res := mon.Result{Tags: []string{"family:deep"}, Nontrivial: true, Case: map[string]any{"family": "deep", "depth": depth}}
+	res.Sig = fmt.Sprintf("deep|%d", depth)
+	want, _ := ref.Merge(a, b, ref.MergeFlags{})
+	for _, c := range []struct {
+		expr string
+		want *ref.V
+	}{{"{} * .b", b}, {".a * .b", want}, {".a * .a", a}, {".a *d .b", want}} {
+		got, _, err := evalDoc(c.expr, doc)
+		res.Evals++
+		if err != nil || got == nil || !ref.EqualNum(got, c.want) {
+			res.Verdict = mon.Violated
+			res.Detail = fmt.Sprintf("`%s` on maps nested %d levels deep: the result is not what the merge of ordinary documents gives (err %v); the bottom of the result reads %s", c.expr, depth, err, clipStr(fmt.Sprint(got), 200)[max(0, len(clipStr(fmt.Sprint(got), 200))-120):])
+			return res
+		}
+	}
+	res.Verdict, res.Detail = mon.Held, fmt.Sprintf("depth %d merged", depth)
+	return res
+}
+
+// c04AliasCase: operands that reach anchored nodes through aliases (as map values and as sequence elements): whatever
+// the merge makes of them, `x` and `y` and the anchored nodes read afterwards as they read before.
+func c04AliasCase(w *mon.Worker, r *rand.Rand) mon.Result {
+	sc := func() string { return []string{"1", "x", "true", "2.5", "'q'"}[r.IntN(5)] }
+	text := fmt.Sprintf("base: &p {p: %s, q: [1, 2]}\nlst: &l [%s, %s]\nx:\n  items: [*p, 2, *l]\n  m: *p\n  k: %s\ny:\n  items: [{r: %s}, {s: 1}, [9]]\n  m: {t: %s}\n  k: [1]\n",
+		sc(), sc(), sc(), sc(), sc(), sc())
+	// (not `n`: `*n` writing through an alias of its left operand is the recorded deviation C08-merge-n-writes-through-alias)
+	flags := []string{"", "d", "+", "?", "d+", "c", "d"}[r.IntN(7)]
+	res := mon.Result{Tags: []string{"family:aliases", "flags:" + flags}, Nontrivial: true, Case: map[string]any{"family": "aliases", "doc": text, "flags": flags}}
+	res.Sig = fmt.Sprintf("aliases|%s|%x", flags, hashStr(text))
+	before, e0, p0 := yqx.Eval("[.base, .lst, .x, .y]", text, "yaml", "json")
+	if e0 != nil || p0 != nil {
+		res.Verdict, res.Detail = mon.Inconclusive, "cannot read the document"
+		return res
+	}
+	for _, tpl := range []string{"[(.x *%s .y) | length, .base, .lst, .x, .y] | .[1:]", "(.x *%s .y) as $m | [.base, .lst, .x, .y]", "[(.y *%s .x) | length, .base, .lst, .x, .y] | .[1:]"} {
+		expr := fmt.Sprintf(tpl, flags)
+		after, e1, p1 := yqx.Eval(expr, text, "yaml", "json")
+		res.Evals++
+		if p1 != nil {
+			res.Verdict, res.Detail = mon.Violated, fmt.Sprintf("`%s` panicked: %v", expr, p1)
+			return res
+		}
+		if e1 != nil {
+			continue // an undefined merge is not this family's business
+		}
+		if after != before {
+			res.Verdict = mon.Violated
+			res.Detail = fmt.Sprintf("`%s`: the operands / the anchored nodes read differently after the merge\n before %s after  %s%s", expr, clipStr(before, 500), clipStr(after, 500), text)
+			return res
+		}
+	}
+	res.Verdict, res.Detail = mon.Held, "operands and anchored nodes untouched"
 	return res
 }
